@@ -669,6 +669,49 @@ def _pass_plain_locals(fn) -> bool:
     return changed
 
 
+def _pass_positional(fn, mod: "_Module", cls: Optional[ast.ClassDef]) -> bool:
+    """`self.m(b=y, a=x)` / `f(a=x)` for a function defined in the same class / module becomes the positional
+    call `self.m(x, y)` (argument values are evaluated in the same order only when that order is unchanged; values
+    here are required to be side-effect free: names, attributes, constants)."""
+    changed = False
+    for c in [n for n in ast.walk(fn) if isinstance(n, ast.Call) and n.keywords]:
+        if any(k.arg is None for k in c.keywords) or any(isinstance(a, ast.Starred) for a in c.args):
+            continue
+        h = None
+        drop = False
+        f = c.func
+        if isinstance(f, ast.Attribute) and isinstance(f.value, ast.Name) and f.value.id in ("self", "cls") and cls is not None:
+            h = mod.method(cls, f.attr)
+            drop = h is not None and not any(q.dotted(d) == "staticmethod" for d in h.decorator_list)
+        elif isinstance(f, ast.Name):
+            h = mod.funcs.get(f.id)
+        if h is None or h.args.vararg or h.args.kwarg or h.args.kwonlyargs:
+            continue
+        params = [a.arg for a in h.args.posonlyargs + h.args.args]
+        if drop:
+            params = params[1:]
+        if len(c.args) > len(params):
+            continue
+        kw = {k.arg: k.value for k in c.keywords}
+        if not all(k in params[len(c.args):] for k in kw):
+            continue
+        if not all(isinstance(v, (ast.Name, ast.Attribute, ast.Constant)) for v in kw.values()):
+            continue
+        new_args = list(c.args)
+        ok = True
+        for prm in params[len(c.args):]:
+            if prm in kw:
+                new_args.append(kw.pop(prm))
+            else:
+                break
+        if kw:
+            continue  # a gap (a defaulted parameter in between): leave the call alone
+        c.args = new_args
+        c.keywords = []
+        changed = True
+    return changed
+
+
 def _pass_split_swaps(fn) -> bool:
     changed = False
     for node in ast.walk(fn):
@@ -864,6 +907,7 @@ def inline_tree(tree: ast.Module, keep: Iterable[str]) -> ast.Module:
     for cls, fn in units:
         try:
             _pass_plain_locals(fn)
+            _pass_positional(fn, mod, cls)
             _pass_split_swaps(fn)
             _pass_alias(fn, cls)
         except RecursionError:
